@@ -1,6 +1,5 @@
-(* C13Facts: what the EmitAst emitters write into a shared IR (exact footprints), non-interference for
-   every sequence of calls that leaves the IR unchanged (induction over the sequence, any length), and
-   the refutation of the unguarded statement. *)
+(* C13Facts: the three AST emitters return the IR they were handed (exact footprints: none), hence
+   non-interference for every sequence of calls, by induction over the sequence (any length). *)
 From Coq Require Import List Ascii Bool Arith ZArith Lia.
 From Coq Require String.
 Import String.StringSyntax.
@@ -8,125 +7,21 @@ From DT Require Import PyStr Sexp PyVal TyExpr PureUtils Defaults PyAst IR EmitA
 Import ListNotations.
 
 (* ------------------------------------------------------------------ footprints *)
-Definition strip_class (tf : fld str) : fld str :=
-  match tf with
-  | Has t => if startswith class_prefix t
-             then Has (slice t (List.length class_prefix) (List.length t - 2)) else tf
-  | _ => tf
-  end.
-
-Lemma resolve_arg_gparam : forall a c name g r t a' c' r' t' g',
-    resolve_arg a c name g r t = Ok (a', c', r', t', g') ->
-    g_typ g <> Missing /\ g' = mkG (g_doc g) (strip_class (g_typ g)) (g_default g).
-Proof.
-  intros a c name g r t a' c' r' t' g' H. unfold resolve_arg in H.
-  destruct (g_typ g) as [| |ty] eqn:Et; [discriminate| |].
-  - apply bind_Ok in H. destruct H as [[s rq] [_ H]]. injection H as _ _ _ _ Hg. split; [discriminate|].
-    now subst g'.
-  - unfold strip_class. destruct (startswith class_prefix ty) eqn:Es.
-    + apply bind_Ok in H. destruct H as [[s rq] [_ H]]. injection H as _ _ _ _ Hg. split; [discriminate|].
-      now subst g'.
-    + apply bind_Ok in H. destruct H as [[s rq] [_ H]]. injection H as _ _ _ _ Hg. split; [discriminate|].
-      now subst g'.
-Qed.
-
-Lemma param2argparse_param_footprint : forall pt ww edd name g s g',
-    param2argparse_param pt ww edd name g = Ok (s, g') -> g' = argparse_footprint g.
-Proof.
-  intros pt ww edd name g s g' H. unfold param2argparse_param in H.
-  apply bind_Ok in H. destruct H as [[[[[action choices] required] typ] g2] [Hra H]].
-  apply resolve_arg_gparam in Hra. destruct Hra as [_ Hg2].
-  set (g3 := match g_doc g2 with Missing => mkG (Has []) (g_typ g2) (g_default g2) | _ => g2 end) in *.
-  apply bind_Ok in H. destruct H as [[doc dflt_doc] [_ H]].
-  apply bind_Ok in H. destruct H as [dflt_in [_ H]].
-  apply bind_Ok in H. destruct H as [r [_ H]].
-  match type of H with (let '(_, _) := ?X in _) = _ => destruct X as [typ2 required2] end.
-  apply bind_Ok in H. destruct H as [help [_ H]].
-  apply bind_Ok in H. destruct H as [dkw [_ H]].
-  injection H as _ Hg. subst g'. subst g3 g2. unfold argparse_footprint.
-  destruct g as [gd gt gv]. cbn.
-  destruct gt as [| |ty]; cbn.
-  - destruct gd; reflexivity.
-  - destruct gd; reflexivity.
-  - destruct (startswith class_prefix ty); destruct gd; reflexivity.
-Qed.
-
-Lemma param_stable_footprint : forall g, param_argparse_stable g = true -> argparse_footprint g = g.
-Proof.
-  intros [gd gt gv] H. unfold param_argparse_stable in H. cbn in H. unfold argparse_footprint. cbn.
-  apply andb_true_iff in H. destruct H as [Ht Hd].
-  destruct gt as [| |ty]; try discriminate; destruct gd; try discriminate; try reflexivity;
-    apply negb_true_iff in Ht; rewrite Ht; reflexivity.
-Qed.
-
-Definition ir_with_params (i : ir) (ps : list (str * gparam)) : ir :=
-  mkIR (ir_name i) (ir_type i) (ir_doc i) ps (ir_returns i) (ir_internal i).
-
-Lemma ir_with_params_same : forall i, ir_with_params i (ir_params i) = i.
-Proof. intros [n t d ps r it]. reflexivity. Qed.
-
-Lemma argparse_params_footprint : forall pt ww edd l ps,
-    map_outcome (fun kv : str * gparam =>
-                   do r <- param2argparse_param pt ww edd (fst kv) (snd kv); Ok (fst r, (fst kv, snd r))) l = Ok ps ->
-    map snd ps = map (fun kv => (fst kv, argparse_footprint (snd kv))) l.
-Proof.
-  intros pt ww edd l. induction l as [|kv l IH]; intros ps H; cbn in H.
-  - injection H as H. now subst ps.
-  - apply bind_Ok in H. destruct H as [y [Hy H]]. apply bind_Ok in H. destruct H as [ys [Hys H]].
-    injection H as H. subst ps. cbn. f_equal; [|now apply IH].
-    apply bind_Ok in Hy. destruct Hy as [[s g'] [Hp Hy]]. injection Hy as Hy. subst y. cbn.
-    f_equal. eapply param2argparse_param_footprint; eauto.
-Qed.
-
-(* emit.argparse_function writes exactly the footprint of param2argparse_param into each param dict *)
-Lemma emit_argparse_ir : forall pt i edd fn ft wd ww ds s i2,
-    emit_argparse pt i edd fn ft wd ww ds = Ok (s, i2) ->
-    i2 = ir_with_params i (map (fun kv => (fst kv, argparse_footprint (snd kv))) (ir_params i)).
-Proof.
-  intros pt i edd fn ft wd ww ds s i2 H. unfold emit_argparse in H.
-  apply bind_Ok in H. destruct H as [fname [_ H]].
-  apply bind_Ok in H. destruct H as [ftype [_ H]].
-  apply bind_Ok in H. destruct H as [b [_ H]].
-  apply bind_Ok in H. destruct H as [dtext [_ H]].
-  apply bind_Ok in H. destruct H as [desc [_ H]].
-  apply bind_Ok in H. destruct H as [ps [Hps H]].
-  apply bind_Ok in H. destruct H as [spliced [_ H]].
-  apply bind_Ok in H. destruct H as [ret [_ H]].
-  destruct fname as [nm|]; [|discriminate]. injection H as _ Hi. subst i2.
-  unfold ir_with_params. f_equal. eapply argparse_params_footprint; eauto.
-Qed.
-
-Lemma map_footprint_stable : forall (l : list (str * gparam)),
-    forallb (fun kv => param_argparse_stable (snd kv)) l = true ->
-    map (fun kv => (fst kv, argparse_footprint (snd kv))) l = l.
-Proof.
-  induction l as [|[k g] l IH]; intros H; cbn in *; [reflexivity|].
-  apply andb_true_iff in H. destruct H as [H1 H2]. rewrite param_stable_footprint by assumption.
-  f_equal. now apply IH.
-Qed.
-
-Lemma emit_argparse_stable : forall pt i edd fn ft wd ww ds s i2,
-    argparse_stable i = true -> emit_argparse pt i edd fn ft wd ww ds = Ok (s, i2) -> i2 = i.
-Proof.
-  intros pt i edd fn ft wd ww ds s i2 St H. apply emit_argparse_ir in H. subst i2.
-  unfold argparse_stable in St. rewrite map_footprint_stable by assumption. apply ir_with_params_same.
-Qed.
-
 (* emit.class_ leaves its argument alone (it works on a deep copy) *)
 Lemma emit_class_ir : forall pt i ec cn bs ds ww tds s i2,
     emit_class pt i ec cn bs ds ww tds = Ok (s, i2) -> i2 = i.
 Proof.
   intros pt i ec cn bs ds ww tds s i2 H. unfold emit_class in H.
   apply bind_Ok in H. destruct H as [ib [_ H]].
-  apply bind_Ok in H. destruct H as [[text i2'] [_ H]].
+  apply bind_Ok in H. destruct H as [text [_ H]].
   apply bind_Ok in H. destruct H as [meth [_ H]].
   apply bind_Ok in H. destruct H as [attrs [_ H]].
   injection H as _ Hi. now subst i2.
 Qed.
 
-(* emit.function leaves behind exactly what to_docstring left behind *)
+(* emit.function: to_docstring works on copies of the param dicts *)
 Lemma emit_function_ir : forall pt i fn ft it kw tds s i2,
-    emit_function pt i fn ft it kw tds = Ok (s, i2) -> exists text, tds = Ok (text, i2).
+    emit_function pt i fn ft it kw tds = Ok (s, i2) -> i2 = i.
 Proof.
   intros pt i fn ft it kw tds s i2 H. unfold emit_function in H.
   apply bind_Ok in H. destruct H as [fname [_ H]].
@@ -135,79 +30,55 @@ Proof.
   apply bind_Ok in H. destruct H as [dfp [_ H]].
   apply bind_Ok in H. destruct H as [b [_ H]].
   apply bind_Ok in H. destruct H as [rv [_ H]].
-  apply bind_Ok in H. destruct H as [[text i2'] [Htds H]].
+  apply bind_Ok in H. destruct H as [text [_ H]].
   apply bind_Ok in H. destruct H as [rets [_ H]].
-  destruct fname as [nm|]; [|discriminate]. injection H as _ Hi. subst i2'. now exists text.
+  destruct fname as [nm|]; [|discriminate]. injection H as _ Hi. now subst i2.
+Qed.
+
+(* emit.argparse_function: param2argparse_param works on a copy of each param dict *)
+Lemma emit_argparse_ir : forall pt i edd fn ft wd ww ds s i2,
+    emit_argparse pt i edd fn ft wd ww ds = Ok (s, i2) -> i2 = i.
+Proof.
+  intros pt i edd fn ft wd ww ds s i2 H. unfold emit_argparse in H.
+  apply bind_Ok in H. destruct H as [fname [_ H]].
+  apply bind_Ok in H. destruct H as [ftype [_ H]].
+  apply bind_Ok in H. destruct H as [b [_ H]].
+  apply bind_Ok in H. destruct H as [dtext [_ H]].
+  apply bind_Ok in H. destruct H as [desc [_ H]].
+  apply bind_Ok in H. destruct H as [ps [_ H]].
+  apply bind_Ok in H. destruct H as [spliced [_ H]].
+  apply bind_Ok in H. destruct H as [ret [_ H]].
+  destruct fname as [nm|]; [|discriminate]. injection H as _ Hi. now subst i2.
 Qed.
 
 (* ------------------------------------------------------------------ non-interference *)
 Section Frame.
   Variable pt : ptable.
-  Variable td : td_opts -> ir -> outcome (str * ir).
+  Variable td : td_opts -> ir -> outcome str.
   Variable dsf : bool -> ir -> outcome str.
   Variable doc_op : doc_opts -> ir -> outcome (str * ir).
 
-  Lemma run_op_class_frame : forall ec cn bs ds ww edd i a i',
-      run_op pt td dsf doc_op (OpClass ec cn bs ds ww edd) i = Ok (a, i') -> i' = i.
-  Proof.
-    intros ec cn bs ds ww edd i a i' H. cbn [run_op] in H.
-    apply bind_Ok in H. destruct H as [[s i2] [He H]]. injection H as _ Hi. subst i'. cbn.
-    eapply emit_class_ir; eauto.
-  Qed.
-
   Lemma run_op_frame : forall o i a i',
-      (uses_shared_docstring o = true -> td_stable_on td doc_op i) ->
-      (is_argparse o = true -> argparse_stable i = true) ->
+      (is_docstring o = true -> doc_stable_on doc_op i) ->
       run_op pt td dsf doc_op o i = Ok (a, i') -> i' = i.
   Proof.
-    intros o i a i' Htd Hap H. destruct o as [ec cn bs ds ww edd|n t ww edd il tb it kw|edd n t wd ww|o].
-    - eapply run_op_class_frame; eauto.
-    - cbn [run_op] in H. apply bind_Ok in H. destruct H as [[s i2] [He H]]. injection H as _ Hi. subst i'. cbn.
-      apply emit_function_ir in He. destruct He as [text Ht].
-      destruct (Htd eq_refl) as [Hs _]. eapply Hs; eauto.
-    - cbn [run_op] in H. apply bind_Ok in H. destruct H as [[s i2] [He H]]. injection H as _ Hi. subst i'. cbn.
-      eapply emit_argparse_stable; eauto.
-    - cbn [run_op] in H. apply bind_Ok in H. destruct H as [[t i2] [He H]]. injection H as _ Hi. subst i'. cbn.
-      destruct (Htd eq_refl) as [_ Hs]. eapply Hs; eauto.
+    intros o i a i' Hd H. destruct o as [ec cn bs ds ww edd|n t ww edd il tb it kw|edd n t wd ww|o];
+      cbn [run_op] in H; apply bind_Ok in H; destruct H as [[s i2] [He H]]; injection H as _ Hi; subst i'; cbn.
+    - eapply emit_class_ir; eauto.
+    - eapply emit_function_ir; eauto.
+    - eapply emit_argparse_ir; eauto.
+    - eapply (Hd eq_refl); eauto.
   Qed.
 
   Lemma C13_frame_lemma : forall ops i,
-      (existsb uses_shared_docstring ops = true -> td_stable_on td doc_op i) ->
-      guard_C13 ops i = true ->
+      (existsb is_docstring ops = true -> doc_stable_on doc_op i) ->
       run_shared pt td dsf doc_op ops i = run_fresh pt td dsf doc_op ops i.
   Proof.
-    induction ops as [|o r IH]; intros i Htd G; [reflexivity|]. cbn [run_shared run_fresh].
+    induction ops as [|o r IH]; intros i Hd; [reflexivity|]. cbn [run_shared run_fresh].
     destruct (run_op pt td dsf doc_op o i) as [[a i']|e] eqn:E; [|reflexivity]. cbn [bind fst snd].
     assert (Hi : i' = i).
-    { eapply run_op_frame; eauto.
-      - intros Hu. apply Htd. cbn. now rewrite Hu.
-      - intros Ha. unfold guard_C13 in G. cbn in G. rewrite Ha in G. exact G. }
-    subst i'. rewrite IH; [reflexivity | |].
-    - intros Hu. apply Htd. cbn. rewrite Hu. apply orb_true_r.
-    - unfold guard_C13 in *. cbn in G. destruct (is_argparse o); cbn in G.
-      + rewrite G. apply orb_true_r.
-      + exact G.
-  Qed.
-
-  (* sequences over the class emitter alone never interfere, whatever the docstring layer does *)
-  Lemma C13_class_only_lemma : forall ops i,
-      forallb is_class ops = true ->
-      run_shared pt td dsf doc_op ops i = run_fresh pt td dsf doc_op ops i.
-  Proof.
-    induction ops as [|o r IH]; intros i Hc; [reflexivity|]. cbn [run_shared run_fresh].
-    cbn in Hc. apply andb_true_iff in Hc. destruct Hc as [Ho Hr].
-    destruct (run_op pt td dsf doc_op o i) as [[a i']|e] eqn:E; [|reflexivity]. cbn [bind fst snd].
-    destruct o; try discriminate. apply run_op_class_frame in E. subst i'. now rewrite IH.
-  Qed.
-
-  (* a class_ call anywhere in a sequence is invisible to the calls after it *)
-  Lemma C13_class_neutral_lemma : forall ec cn bs ds ww edd ops i a i',
-      run_op pt td dsf doc_op (OpClass ec cn bs ds ww edd) i = Ok (a, i') ->
-      run_shared pt td dsf doc_op (OpClass ec cn bs ds ww edd :: ops) i
-      = do rest <- run_shared pt td dsf doc_op ops i; Ok (a :: rest).
-  Proof.
-    intros ec cn bs ds ww edd ops i a i' H. cbn [run_shared]. rewrite H. cbn [bind fst snd].
-    apply run_op_class_frame in H. now subst i'.
+    { eapply run_op_frame; eauto. intros Ho. apply Hd. cbn. now rewrite Ho. }
+    subst i'. rewrite IH; [reflexivity|]. intros Hr. apply Hd. cbn. rewrite Hr. apply orb_true_r.
   Qed.
 
   (* the Fixpoint run_shared is the fold_left of the design text *)
@@ -252,49 +123,57 @@ Section Frame.
   Qed.
 End Frame.
 
-(* ------------------------------------------------------------------ refutation *)
-Definition w_td : td_opts -> ir -> outcome (str * ir) := fun _ i => Ok ([], i).
-Definition w_dsf : bool -> ir -> outcome str := fun _ _ => Ok [].
-Definition w_doc_op : doc_opts -> ir -> outcome (str * ir) := fun _ i => Ok ([], i).
-
-(* one parameter without a declared type *)
-Definition w_ir : ir :=
-  mkIR (Has (L "f")) (Has (L "static")) (Has (L "Summary.")) [(L "x", mkG (Has (L "the x.")) Missing None)]
-       FNone None.
-
-Definition w_ops : list op :=
-  [OpArgparse false (Some (L "set_cli_args")) (Some (L "static")) false false;
-   OpFunction (Some (L "f")) (Some (L "static")) false false 0 false true false].
-
-(* after argparse_function the shared parameter carries typ = "Any": the function emitted next is
-   def f(x: Any = None) where the fresh copy gives def f(x=None) *)
-Lemma C13_refuted_lemma : ~ C13_statement.
+(* the full statement *)
+Lemma C13_lemma : C13_statement.
 Proof.
-  intros H. specialize (H [] w_td w_dsf w_doc_op w_ops w_ir). vm_compute in H. discriminate.
+  intros pt td dsf doc_op Hp ops i. apply C13_frame_lemma. intros _ o t i' H. eapply Hp; eauto.
 Qed.
 
-Lemma C13_witness_stable : td_stable_on w_td w_doc_op w_ir.
-Proof. split; intros o t i' H; unfold w_td, w_doc_op in H; injection H as _ H; now subst. Qed.
+Lemma C13_emitters_lemma : C13_emitters_statement.
+Proof.
+  intros pt td dsf doc_op ops i Hn. apply C13_frame_lemma. rewrite Hn. discriminate.
+Qed.
 
-Lemma C13_witness_class : finding_class_C13 w_ops w_ir false = Some K_argparse_setdefault.
-Proof. reflexivity. Qed.
+(* the hypothesis on emit.docstring cannot be dropped: a docstring layer that writes into the shared param
+   dicts (here: one that appends a default sentence to every doc, as set_default_doc does) changes what the
+   argparse emitter, which reads the prose, produces next *)
+Definition w_td : td_opts -> ir -> outcome str := fun _ _ => Ok [].
+Definition w_dsf : bool -> ir -> outcome str := fun _ _ => Ok [].
+Definition w_doc_op : doc_opts -> ir -> outcome (str * ir) :=
+  fun _ i => Ok ([], mkIR (ir_name i) (ir_type i) (ir_doc i)
+                         (map (fun kv => (fst kv, mkG (match g_doc (snd kv) with
+                                                       | Has d => Has (d ++ L ". Defaults to 5")
+                                                       | x => x
+                                                       end) (g_typ (snd kv)) (g_default (snd kv))))
+                              (ir_params i))
+                         (ir_returns i) (ir_internal i)).
+
+Definition w_ir : ir :=
+  mkIR (Has (L "f")) (Has (L "static")) (Has (L "Summary."))
+       [(L "x", mkG (Has (L "the x")) (Has (L "int")) (Some (DV (VInt 5))))] FNone None.
+
+Definition w_ops : list op :=
+  [OpDocstring (mkDocOpts false true);
+   OpArgparse false (Some (L "set_cli_args")) (Some (L "static")) false false].
+
+Lemma C13_doc_pure_needed_lemma :
+  run_shared [] w_td w_dsf w_doc_op w_ops w_ir <> run_fresh [] w_td w_dsf w_doc_op w_ops w_ir.
+Proof. vm_compute. discriminate. Qed.
 
 (* ------------------------------------------------------------------ non-vacuity *)
 Definition w_ir_ok : ir :=
   mkIR (Has (L "f")) (Has (L "static")) (Has (L "Summary."))
-       [(L "x", mkG (Has (L "the x.")) (Has (L "int")) (Some (DV (VInt 5))));
-        (L "y", mkG (Has (L "the y.")) (Has (L "Optional[str]")) None)]
+       [(L "x", mkG (Has (L "the x.")) Missing (Some (DV (VInt 5))));
+        (L "y", mkG (Has (L "the y")) (Has (L "Optional[str]")) None)]
        (Has (mkG (Has (L "result.")) (Has (L "int")) None)) None.
 
 Definition w_ops_ok : list op :=
   [OpArgparse false (Some (L "set_cli_args")) (Some (L "static")) false false;
    OpClass false (L "C") [L "object"] [] false false;
-   OpFunction (Some (L "f")) (Some (L "static")) false false 0 false true false;
-   OpArgparse true (Some (L "set_cli_args")) (Some (L "static")) false false].
+   OpFunction (Some (L "f")) (Some (L "static")) false true 0 false true false;
+   OpArgparse true (Some (L "set_cli_args")) (Some (L "static")) false false;
+   OpFunction (Some (L "f")) (Some (L "static")) false false 0 false true false].
 
 Lemma C13_nonvacuous_lemma :
-  guard_C13 w_ops_ok w_ir_ok = true
-  /\ exists l, run_shared [] w_td w_dsf w_doc_op w_ops_ok w_ir_ok = Ok l /\ List.length l = 4.
-Proof.
-  split; [reflexivity|]. eexists. split; [vm_compute; reflexivity | reflexivity].
-Qed.
+  exists l, run_shared [] w_td w_dsf w_doc_op w_ops_ok w_ir_ok = Ok l /\ List.length l = 5.
+Proof. eexists. split; [vm_compute; reflexivity | reflexivity]. Qed.
